@@ -305,8 +305,10 @@ class BuildAssembly(Assembly):
                 # row from an OverlapResult
                 continue
 
+            # Only fuse scaffolds which share a destination assembly (tag, else
+            # haplotype) as well as a name
             build_scffld = hap_name_scaffold.setdefault(
-                (scffld.haplotype, scffld.name),
+                (scffld.tag or scffld.haplotype, scffld.name),
                 Scaffold(
                     scffld.name,
                     tag=scffld.tag,
